@@ -88,6 +88,16 @@ def generate():
         if first_stmt is None or ast.unparse(first_stmt) != "enabled = self._core.enabled.copy()":
             raise Unsupported("_change_activation no longer starts with `enabled = self._core.enabled.copy()` under the lock")
         body += "def copiesEnabledUnderLock : Bool := true\n\n"
+        # the branch for the anonymous module (`name is None`): it must publish `activation_none` and then the new
+        # `enabled` dict unconditionally before it returns - same protocol, same order (rule first, cache second)
+        none_if = [n for n in ast.walk(fn) if isinstance(n, ast.If) and ast.unparse(n.test) == "name is None"]
+        if len(none_if) != 1:
+            raise Unsupported("_change_activation: no single `if name is None:` branch")
+        top = [ast.unparse(st) for st in none_if[0].body if not isinstance(st, (ast.For,))]
+        tail = top[-3:]
+        ok_none = (tail == ["self._core.activation_none = status", "self._core.enabled = enabled", "return"])
+        body += "/-- the `name is None` branch ends with: publish activation_none, publish enabled, return - unconditionally -/\n"
+        body += "def noneBranchPublishes : Bool := %s\n\n" % ("true" if ok_none else "false")
         lg = find_func(tree, "_log", cls="Logger")
         # cache-miss path: `except KeyError:` handler of the `core.enabled[name]` lookup
         handler = None
